@@ -85,6 +85,8 @@ def job_default(job):
         lo, hi = dec(spec['bounds'][0]), dec(spec['bounds'][1])
         if spec['ptype'] == 'DOUBLE':
             lo, hi = float(lo), float(hi)
+        if spec.get('scale'):
+            kw['scale_type'] = R15.SCALES[spec['scale']]
         pc = vz.ParameterConfig.factory(name, bounds=(lo, hi), **kw)
     else:
         fv = [dec(x) for x in spec['feasible']]
@@ -101,6 +103,35 @@ def job_default(job):
     out['parameters'] = {k: repr(v.value) for k, v in p.items()}
     ok = list(p.keys()) == [name] and member(pc, p[name]) and ss.contains(p) == member(pc, p[name])
     return out, not ok
+
+
+def default_grid(tier='quick'):
+    """default / centre seeding over degenerate and ordinary DOUBLE ranges x scale types (bounded; used as stand-in and as the native
+    model search of the get_default_parameters obligations)"""
+    import numpy as _np
+    base = [0.1, 10.0, 1e-5, 3.0, 1.0 / 3, 7e-3, 1e10, 123456.789, 2.0 ** -20, 0.7, 1e-300, 1e300]
+    if tier != 'quick':
+        base += [float(x) for x in _np.random.RandomState(0).lognormal(0, 8, size=60)]
+    found, runs = {}, 0
+    for scale in (None, 'LINEAR', 'LOG', 'REVERSE_LOG'):
+        for lo in base:
+            for hi in (lo, float(_np.nextafter(lo, _np.inf)), lo * (1 + 1e-9), lo * 2, lo * 1e6):
+                if not (math.isfinite(hi) and hi >= lo):
+                    continue
+                job = {'kind': 'default', 'pc': {'ptype': 'DOUBLE', 'bounds': [R15.enc(lo), R15.enc(hi)], 'scale': scale}, 'default': None}
+                runs += 1
+                out, bad = job_default(job)
+                if bad:
+                    clause = 'refuses_only_infeasible_default' if 'raised' in out else 'in_domain'
+                    found.setdefault('%s.DOUBLE.%scentre' % (clause, '' if scale is None else scale + '.'), {'job': job, 'output': out})
+    for lo in (-3.0, 0.0):          # non-positive ranges with a log scale type: arithmetic centre
+        for scale in ('LOG', 'REVERSE_LOG', None):
+            job = {'kind': 'default', 'pc': {'ptype': 'DOUBLE', 'bounds': [R15.enc(lo), R15.enc(lo + 2.0)], 'scale': scale}, 'default': None}
+            runs += 1
+            out, bad = job_default(job)
+            if bad:
+                found.setdefault('in_domain.DOUBLE.%scentre' % ('' if scale is None else scale + '.'), {'job': job, 'output': out})
+    return {'kind': 'default', 'runs': runs, 'found': found}, bool(found)
 
 
 def job_grid(job):
@@ -295,7 +326,11 @@ def standin(tier):
             p = sd.get_default_parameters(ss)
             if sorted(p.keys()) != names or not ss.contains(p):
                 fails.append({'designer': 'get_default_parameters', 'space': names, 'what': 'default %r not in the space' % (dict(p.as_dict()),)})
-    return {'spaces': len(spaces), 'runs': runs, 'n_failures': len(fails), 'failures': fails[:5], 'n_refusals': len(refusals),
+    dres, dbad = default_grid(tier)
+    runs += dres['runs']
+    for k, hit in dres['found'].items():
+        fails.append({'designer': 'get_default_parameters', 'space': hit['job']['pc'], 'what': '%s: %s' % (k, json.dumps(hit['output'])[:200])})
+    return {'spaces': len(spaces), 'runs': runs, 'default_seeding_runs': dres['runs'], 'n_failures': len(fails), 'failures': fails[:5], 'n_refusals': len(refusals),
             'refusal_examples': refusals[:2]}, bool(fails)
 
 
@@ -310,6 +345,8 @@ def main():
         res, bad = findings()
     elif a == 'builder_model':
         res, bad = builder_model()
+    elif a == 'search':
+        res, bad = default_grid(sys.argv[3] if len(sys.argv) > 3 else 'quick') if sys.argv[2] == 'default' else ({'found': {}}, False)
     elif a == 'standin':
         res, bad = standin(sys.argv[2] if len(sys.argv) > 2 else 'quick')
     else:
